@@ -1,2 +1,2 @@
-import sys; sys.path.insert(0,'/tmp/fixes'); from edit import rep
+import sys; sys.path.insert(0,'/verif/tools'); from edit import rep
 rep('segno/writers.py', "16: .625,", "16: .0625,")
